@@ -36,6 +36,12 @@ class Source(LenaSequence):
         self._name = "Source"  # for repr
         super(Source, self).__init__(*args)
 
+        if not self._data_seq:
+            # all arguments are elements without data (like SetContext)
+            raise LenaTypeError(
+                "Source must contain a callable or iterable first element, "
+                "{} given".format(args)
+            )
         first = self._data_seq[0]
         if not (callable(first) or hasattr(first, "__iter__")):
             # I think checking __iter__ is the same as calling
